@@ -7,6 +7,7 @@ C02.reads   the rflags bits a handler's control flow or results depend on are wi
 C02.setter  transfer function of the flag setters derived from their own MIR for every mask pair in use
 """
 from .. import absint as A
+from .. import facts as F
 from .. import flags as FL
 from .. import hmodel as H
 from .. import hutil as U
@@ -277,6 +278,7 @@ def run(ctx):
     setter_values(ctx)
     result_agreement(ctx)
     mul_flags(ctx)
+    carry_points(ctx)
     ck.cov["setter_mask_pairs"] = len(ss.cache)
     ck.cov["unproducible_skipped"] = skipped
     ck.cov["excluded_os_interface"] = excluded
@@ -549,6 +551,136 @@ def setter_values(ctx):
         else:
             ck.ok("C02.setter.zsp", inst, cnt)
     ck.cov["setter_value_evaluations"] = total
+
+
+CARRY_REF = ("Add", "Adc", "Sub", "Sbb", "Cmp", "Neg", "Inc", "Dec")
+
+
+def arch_carry(mn, d, s, cin, n):
+    """(result, CF or None when unaffected, OF) of the arithmetic instruction on n-bit operands"""
+    m = (1 << n) - 1
+    sg = lambda v: v - (1 << n) if v >> (n - 1) else v
+    if mn in ("Add", "Adc", "Inc"):
+        s_ = 1 if mn == "Inc" else s
+        c_ = cin if mn == "Adc" else 0
+        full = d + s_ + c_
+        sfull = sg(d) + sg(s_) + c_
+        return full & m, (None if mn == "Inc" else int(full > m)), int(not (-(1 << (n - 1)) <= sfull < (1 << (n - 1))))
+    if mn == "Neg":
+        d, s = 0, d
+    s_ = 1 if mn == "Dec" else s
+    c_ = cin if mn == "Sbb" else 0
+    full = d - s_ - c_
+    sfull = sg(d) - sg(s_) - c_
+    cf = None if mn == "Dec" else int(full < 0)
+    return full & m, cf, int(not (-(1 << (n - 1)) <= sfull < (1 << (n - 1))))
+
+
+def carry_points(ctx):
+    """C02.carry: CF and OF of the additive instructions, evaluated with the operands fixed at the points where carries and
+    signed overflows begin and end (0, 1, the largest positive, the most negative value, -1, for both operands and both
+    incoming carries): the handler's own flag computation is interpreted on constants and compared with the architectural
+    definition. Exhaustive for the classes the *architecture* distinguishes (operand signs x carry into the top bit x
+    carry-in); an implementation that goes wrong only strictly inside a class is not seen."""
+    import os
+    import json
+    from .. import shiftsweep as SS
+    from . import C01
+    ck, facts, O, D, hm = ctx.check, ctx.facts, ctx.oracle, ctx.dispatch, ctx.hmodel
+    cache = os.path.join(F.CACHE, "sweeps")
+    os.makedirs(cache, exist_ok=True)
+    cp = os.path.join(cache, "carry-%s-%s.json" % (facts.tree, SS.checker_hash()))
+    if os.path.exists(cp):
+        with open(cp) as fh:
+            res = json.load(fh)
+    else:
+        res = {}
+        for code in sorted(D.implemented()):
+            oc = O["codes"][code]
+            mn = oc["mnemonic"]
+            if mn not in CARRY_REF or not hm.producible(code) or not oc["kinds"]:
+                continue
+            n = C01.KIND_BITS.get(oc["kinds"][0])
+            if n not in (8, 16, 32, 64):
+                continue
+            shapes = [sh for sh in hm.shapes(code) if sh[0] == "reg"] or hm.shapes(code)[:1]
+            label, kinds, spec = shapes[0]
+            m = (1 << n) - 1
+            pts = [0, 1, (1 << (n - 1)) - 1, 1 << (n - 1), m]
+            unary = mn in ("Neg", "Inc", "Dec")
+            # immediates: the values the form can encode, sign-extended to the operand size
+            sk = oc["kinds"][1] if len(oc["kinds"]) > 1 else ""
+            spts = pts
+            if "imm" in sk:
+                ib = int("".join(ch for ch in sk[3:5] if ch.isdigit()) or 8)
+                ib = min(ib, n)
+                spts = sorted({0, 1, (1 << (ib - 1)) - 1, (m & ~((1 << (ib - 1)) - 1)) if "sex" in sk or ib == n else 1 << (ib - 1), m if ("sex" in sk or ib == n) else (1 << ib) - 1})
+            bad = []
+            npts = 0
+            und = None
+            for cin in ((0, 1) if mn in ("Adc", "Sbb") else (0,)):
+                for dv in pts:
+                    for sv in ([0] if unary else spts):
+                        assume = {}
+                        spec2 = dict(spec)
+                        ok_shape = True
+                        for k_, val in ((0, dv), (1, sv)):
+                            sp_ = spec.get(k_)
+                            if sp_ is None:
+                                continue
+                            if sp_[0] == "R":
+                                w_ = C01.KIND_BITS.get(oc["kinds"][k_], n)
+                                assume[("reg", w_, ("opreg", k_), 0)] = [(val >> i_) & 1 for i_ in range(64)]
+                            elif sp_[0] == "I":
+                                spec2[k_] = ("IC", sp_[1], val)
+                            else:
+                                ok_shape = False
+                        if not ok_shape:
+                            continue
+                        outs, I = hm.run(code, (label, kinds, spec2), flags={"CF": cin}, assume=assume)
+                        want = arch_carry(mn, dv, sv, cin, n)
+                        for o in outs:
+                            if o.kind != "return" or C_is_err(o):
+                                continue
+                            cf, of = cin, None
+                            for e in o.path.events:
+                                if e[0] == "set_flags":
+                                    sm, cm = I.decide(o.path, e[2]), I.decide(o.path, e[3])
+                                    if sm is None or cm is None:
+                                        cf = of = "?"
+                                        break
+                                    if sm == 0x7FFFFFFFFFFFFFFF:
+                                        continue
+                                    cf = 1 if sm & 1 else (0 if cm & 1 else cf)
+                                    of = 1 if sm & 0x800 else (0 if cm & 0x800 else of)
+                            npts += 1
+                            if cf == "?" or of is None:
+                                und = und or "flag masks are not constants at d=%#x s=%#x" % (dv, sv)
+                                continue
+                            if want[1] is not None and cf != want[1]:
+                                bad.append("CF=%d for d=%#x s=%#x cf=%d, architecture %d" % (cf, dv, sv, cin, want[1]))
+                            if of != want[2]:
+                                bad.append("OF=%d for d=%#x s=%#x cf=%d, architecture %d" % (of, dv, sv, cin, want[2]))
+            res[code] = {"bad": bad[:6], "nbad": len(bad), "points": npts, "und": und}
+        tmp = cp + ".tmp%d" % os.getpid()
+        with open(tmp, "w") as fh:
+            json.dump(res, fh)
+        os.replace(tmp, cp)
+    nforms = 0
+    for code, r in sorted(res.items()):
+        where = U.handler_where(facts, D, code)
+        inst = "Code=%s" % code
+        if r["nbad"]:
+            ck.violation("C02.carry", inst, "%s (%d of %d points)" % (r["bad"][0], r["nbad"], r["points"]), where=where,
+                         witness={"points": r["bad"]}, what="carry / overflow flag of an addition or subtraction deviates from the architecture")
+            nforms += 1
+        elif r["points"] and not r["und"]:
+            ck.ok("C02.carry", inst, r["points"])
+            nforms += 1
+        else:
+            ck.undecided_("C02.carry", inst, r["und"] or "no point evaluated")
+    ck.cov["carry_point_evaluations"] = sum(r["points"] for r in res.values())
+    ck.floor("additive forms with CF/OF evaluated at the boundary points", nforms, 85)
 
 
 def C_is_err(o):
